@@ -353,6 +353,9 @@ def main(argv):
         log("TOOL-ERROR property=%s internal error" % a.pid)
         sys.exit(2)
     if ctx.violations:
+        from collections import Counter
+        for key, n in Counter(v[0] for v in ctx.violations).most_common(40):
+            log("  violation-class %s x%d" % (key, n))
         log("FAIL property=%s violations=%d" % (a.pid, len(ctx.violations)))
         sys.exit(1)
     log("OK property=%s tier=%s wall=%.1fs states=%d impl_traces=%d" % (
